@@ -4,6 +4,8 @@
 package core
 
 import (
+	"sync"
+	"runtime"
 	"encoding/json"
 	"flag"
 	"fmt"
@@ -171,6 +173,96 @@ func withTail(rt *rapid.T, tape []uint32) []uint32 {
 		tape = append(tape, TailMark+rapid.Uint32Range(0, 1<<15).Draw(rt, "tailSeed"))
 	}
 	return tape
+}
+
+// ---------------------------------------------------------------------------
+// Real-time watchdog. A task stuck inside an un-instrumented dependency on a lock the bubble does not consider
+// "durably blocking" (a sync.Mutex or sync.Cond inside database/sql or the SQLite driver) stops everything:
+// synctest.Wait never returns, the scheduler never gets to speak. A goroutine outside every bubble therefore
+// watches the wall clock: if no case has started or finished for hangLimit, it looks at the goroutine dump. A
+// simulator task inside a call into one of the bundled stores means that call does not return - a violation for
+// the property that drove it, written out with the scenario as replay file; anything else is a harness error.
+
+var (
+	hangMu       sync.Mutex
+	hangProp     string
+	hangScenario []byte
+	hangSeed     int64
+	hangProgress time.Time
+	hangOnce     sync.Once
+)
+
+const hangLimit = 45 * time.Second
+
+// StoreCallInStacks looks for a simulator task that is inside a call into a bundled store.
+func StoreCallInStacks(stacks string) (string, bool) {
+	for _, g := range strings.Split(stacks, "\n\n") {
+		if !strings.Contains(g, "simrt.(*Sim).taskMain") {
+			continue
+		}
+		for _, marker := range []string{"github.com/jilio/ebu/stores/sqlite.(*SQLiteStore).", "github.com/jilio/ebu/stores/durablestream.(*Store)."} {
+			if i := strings.Index(g, marker); i >= 0 {
+				line := g[i:]
+				if j := strings.IndexByte(line, '\n'); j >= 0 {
+					line = line[:j]
+				}
+				return line, true
+			}
+		}
+	}
+	return "", false
+}
+
+func noteProgress(prop string, seed int64, sc Scenario) {
+	var data []byte
+	if sc != nil {
+		data, _ = json.Marshal(sc)
+	}
+	hangMu.Lock()
+	hangProp, hangSeed, hangProgress = prop, seed, time.Now()
+	if sc != nil {
+		hangScenario = data
+	}
+	hangMu.Unlock()
+	hangOnce.Do(func() {
+		go func() {
+			for {
+				time.Sleep(5 * time.Second)
+				hangMu.Lock()
+				idle, prop, seed, scen := time.Since(hangProgress), hangProp, hangSeed, hangScenario
+				hangMu.Unlock()
+				if idle < hangLimit {
+					continue
+				}
+				buf := make([]byte, 4<<20)
+				stacks := string(buf[:runtime.Stack(buf, true)])
+				call, inStore := StoreCallInStacks(stacks)
+				if !inStore {
+					fmt.Fprintf(os.Stderr, "HARNESS-ERROR property=%s: no progress for %v of real time and no task is inside a store call\nscenario: %s\n%s\n", prop, idle.Round(time.Second), scen, stacks)
+					os.Exit(2)
+				}
+				dir := os.Getenv("VERIF_REPLAY_DIR")
+				if dir == "" {
+					dir = "."
+				}
+				os.MkdirAll(dir, 0o755)
+				msg := fmt.Sprintf("a call into the store has not returned for %v of real time while every other goroutine waits for it: %s", idle.Round(time.Second), call)
+				h := fnv.New32a()
+				h.Write(scen)
+				rf := ReplayFile{Property: prop, Seed: seed, Scenario: scen, Violations: []Violation{{Kind: "store-call-never-returned", Msg: msg}},
+					Note: "found by the real-time watchdog (the blocked call holds a lock the simulator cannot see through); not minimised; re-run with ./check replay <this file>"}
+				out, _ := json.MarshalIndent(rf, "", " ")
+				path := filepath.Join(dir, fmt.Sprintf("%s-%d-%08x.json", prop, seed, h.Sum32()))
+				if rp := os.Getenv("VERIF_REPLAY"); rp != "" {
+					path = rp
+				} else {
+					os.WriteFile(path, out, 0o644)
+				}
+				fmt.Printf("VIOLATION property=%s replay=%s\n  kind=store-call-never-returned\n  %s\n", prop, path, msg)
+				os.Exit(1)
+			}
+		}()
+	})
 }
 
 // markCase serves the race companion (a -race build of the same workloads, see the driver): before a case
@@ -533,7 +625,9 @@ func RunProperty(t *testing.T, p *Property) {
 	prop := func(rt *rapid.T) {
 		sc := p.Gen(rt)
 		markCase(sc)
+		noteProgress(p.ID, seed, sc)
 		out := sc.Execute(t)
+		noteProgress(p.ID, seed, nil)
 		if out.HarnessErr != "" {
 			harnessFail(p.ID, sc, out.HarnessErr)
 		}
@@ -656,6 +750,7 @@ func (r *runner) replay(t *testing.T, path string) {
 		os.Exit(2)
 	}
 	markCase(sc)
+	noteProgress(r.prop.ID, rf.Seed, sc)
 	out := sc.Execute(t)
 	if out.HarnessErr != "" {
 		harnessFail(r.prop.ID, sc, out.HarnessErr)
